@@ -10,7 +10,7 @@
                      entry point the builtin slot.
    Key and value validators are Section variables `VK VV : pyval -> res pyval`. *)
 From Coq Require Import ZArith NArith String Ascii List Bool SpecFloat.
-From Cinco Require Import Base ListModel.
+From Cinco Require Import Base Str ListModel.
 Import ListNotations.
 Open Scope Z_scope.
 
@@ -274,6 +274,23 @@ Definition py_truthy (v : pyval) : bool :=
   | _ => true
   end.
 
+(* `"%s" % key` as DictProxy._ref_path renders the key of the offending entry (the key AS GIVEN, before
+   validation).  Float text is not modelled: the harness canonicalises it to the same marker. *)
+Definition key_text (k : pyval) : str :=
+  match k with
+  | PNone => sa "None"
+  | PBool true => sa "True"
+  | PBool false => sa "False"
+  | PInt z => str_of_Z z
+  | PStr s => s
+  | PFloat _ => sa "<float>"
+  | _ => sa "<other>"
+  end.
+
+(* ValidationError.ref_path of a refused entry: "<configuration path>.<field>[<key>]"; the text before
+   the bracket (holder path and field key) is a string the model is given *)
+Definition entry_path (pre : str) (kt : str) : str := pre ++ [91%N] ++ kt ++ [93%N].
+
 Definition lift_p {A} (o : res A) (v : pyval) : res pyval :=
   match o with Ok _ => Ok v | Err e => Err e | Unmodelled => Unmodelled end.
 
@@ -281,15 +298,16 @@ Section DProxy.
   Variables VK VV : pyval -> res pyval.   (* key_field.validate, value_field.validate *)
   Variable tg : N.
 
-  (* DictProxy._validate: key first, then value; every exception becomes a ValidationError *)
+  (* DictProxy._validate: key first, then value; every exception becomes a ValidationError whose
+     ref_path ends in [<the key as given>] (the error value carries that key text) *)
   Definition d_validate (k v : pyval) : res (pyval * pyval) :=
     match VK k with
     | Ok k' => match VV v with
                | Ok v' => Ok (k', v')
-               | Err _ => Err (EValidation [])
+               | Err _ => Err (EValidation (key_text k))
                | Unmodelled => Unmodelled
                end
-    | Err _ => Err (EValidation [])
+    | Err _ => Err (EValidation (key_text k))
     | Unmodelled => Unmodelled
     end.
 
@@ -447,6 +465,27 @@ Section DProxy.
     match b_dstep s (norm_dop s op) with (s', r) => (s', dretag op r) end.
 End DProxy.
 
+(* the pairs an operation validates, in the order it validates them (compatible / same-field proxies
+   are taken over without validation) *)
+Definition dchecked (s : pairs) (op : dop) : pairs :=
+  match op with
+  | DSetItem k v => [(k, v)]
+  | DSetDefault k v => [(k, opt_or_none v)]
+  | DUpdate src kw => (if ds_compat src then [] else ds_items s src) ++ kw
+  | DIOr src => if ds_compat src then [] else ds_items s src
+  | DNew src => if ds_samefield src then [] else ds_items s src
+  | _ => []
+  end.
+Definition dop_validating (op : dop) : bool :=
+  match op with DSetItem _ _ | DSetDefault _ _ | DUpdate _ _ | DIOr _ | DNew _ => true | _ => false end.
+
+(* the key of the first pair that is not acceptable *)
+Fixpoint first_bad (VK VV : pyval -> res pyval) (ps : pairs) : option pyval :=
+  match ps with
+  | [] => None
+  | (k, v) :: r => if pair_ok VK VV (k, v) then first_bad VK VV r else Some k
+  end.
+
 Fixpoint daccepted_run (VK VV : pyval -> res pyval) (tg : N) (s : pairs) (ops : list dop) : bool :=
   match ops with
   | [] => true
@@ -471,7 +510,17 @@ Definition dtwin_rejected (VK VV : pyval -> res pyval) (p t : pairs) (op : dop) 
   | _ => t
   end.
 
-Fixpoint dtrace (VK VV : pyval -> res pyval) (tg : N) (p t : pairs) (ops : list dop) : list pyval :=
+(* a refused entry is observed with its full reference path *)
+Definition o_dkind (pre : str) (e : errk) : pyval :=
+  match e with EValidation kt => o_errk (EValidation (entry_path pre kt)) | _ => o_errk e end.
+Definition o_dout (pre : str) (r : res pyval) : pyval :=
+  match r with
+  | Ok v => PTuple [o_str "ok"; v]
+  | Err e => PTuple [o_str "err"; o_dkind pre e]
+  | Unmodelled => o_str "unmodelled"
+  end.
+
+Fixpoint dtrace (pre : str) (VK VV : pyval -> res pyval) (tg : N) (p t : pairs) (ops : list dop) : list pyval :=
   match ops with
   | [] => []
   | op :: r =>
@@ -480,27 +529,29 @@ Fixpoint dtrace (VK VV : pyval -> res pyval) (tg : N) (p t : pairs) (ops : list 
           let tw := if daccepted VK VV p op
                     then match b_dstep t (norm_dop VK VV t op) with (t', o) => (t', o_out o) end
                     else (dtwin_rejected VK VV p t op, o_str "skipped") in
-          PTuple [o_out out; PDict tg p'; snd tw; PDict 0 (fst tw)] :: dtrace VK VV tg p' (fst tw) r
+          PTuple [o_dout pre out; PDict tg p'; snd tw; PDict 0 (fst tw)] :: dtrace pre VK VV tg p' (fst tw) r
       end
   end.
 
-Definition run_dict (tg : N) (kt vt : vtable) (init : pairs) (ops : list dop) : pyval :=
+(* pre = "<configuration path>.<field>"; the initial value is assigned as a whole (`cfg.d = {...}`:
+   DictField._validate builds the proxy, Config._set_value passes its ValidationError on unchanged) *)
+Definition run_dict (tg : N) (pre : str) (kt vt : vtable) (init : pairs) (ops : list dop) : pyval :=
   match dp_init (table_V kt) (table_V vt) false init with
-  | Ok s => PList 0 (PDict tg s :: dtrace (table_V kt) (table_V vt) tg s s ops)
-  | Err e => PTuple [o_str "init"; o_kind e]
+  | Ok s => PList 0 (PDict tg s :: dtrace pre (table_V kt) (table_V vt) tg s s ops)
+  | Err e => PTuple [o_str "init"; o_dkind pre e]
   | Unmodelled => o_str "unmodelled"
   end.
 
 (* ---- the cases of stream `proxyops` ---- *)
 Inductive pcase :=
-| CList (tg : N) (tbl : vtable) (init : list pyval) (ops : list lop)
-| CDict (tg : N) (ktbl vtbl : vtable) (init : pairs) (ops : list dop)
+| CList (tg : N) (path : str) (tbl : vtable) (init : list pyval) (ops : list lop)
+| CDict (tg : N) (pre : str) (ktbl vtbl : vtable) (init : pairs) (ops : list dop)
 | CSlots (is_list : bool).
 
 Definition run_proxyops (c : pcase) : pyval :=
   match c with
-  | CList tg tbl init ops => run_list tg tbl init ops
-  | CDict tg kt vt init ops => run_dict tg kt vt init ops
+  | CList tg path tbl init ops => run_list tg path tbl init ops
+  | CDict tg pre kt vt init ops => run_dict tg pre kt vt init ops
   | CSlots true => o_table list_table
   | CSlots false => o_table dict_table
   end.
